@@ -133,6 +133,11 @@ rule("C02.j", "a transport loses commodity on the way to the node that receives 
      floor=1)
 
 
+rule("C02.l", "a transport is modelled with one variable per step only where the direction of the flow is fixed (all capacities <= 0 or all >= 0) "
+              "or does not matter: the disjunct that admits flows in both directions (no costs) also requires efficiency == 1 - one variable "
+              "with factors (-1, +efficiency) loses commodity in one direction and creates it in the other", floor=1)
+
+
 def _reverse_flow_guard(p, st, fn):
     """the enclosing `if all(<cap> <= 0)` (dispatch always negative) in whose body `st` lies, or None"""
     child = st
@@ -149,7 +154,7 @@ def _reverse_flow_guard(p, st, fn):
     return None
 
 
-@analysis("roles", ["C02.c", "C02.d", "C02.e", "C02.j"])
+@analysis("roles", ["C02.c", "C02.d", "C02.e", "C02.j", "C02.l"])
 def run(ctx):
     p = ctx.p
     total = 0
@@ -346,6 +351,40 @@ def run(ctx):
                        % ("maximum" if kind == "max_take" else "minimum", " with negated values" if negated else "",
                           "n upper" if want == "U" else " lower", want, letter), node=c)
     ctx.require(n >= 4, "fewer than 4 define_restr call sites found")
+
+    # ================================================================= C02.l both directions only without losses
+    trl = p.cls("Transport").methods.get("setup_optim_problem")
+    if trl is None:
+        ctx.ob("C02.l", "Transport", "one-variable branch", None, "Transport.setup_optim_problem not found")
+    else:
+        found_l = False
+        for st in au.walk_stmts(trl.body):
+            if not (isinstance(st, ast.If) and any(isinstance(x, ast.Raise) for x in au.walk_stmts(st.orelse))):
+                continue
+            disj = au.flatten_boolop(st.test, ast.Or)
+            free = []
+            for d in disj:
+                conj = au.flatten_boolop(d, ast.And)
+                calls = [c for c in conj if isinstance(c, ast.Call) and au.method_name(c) == "all" and c.args and isinstance(c.args[0], ast.Compare)]
+                directional = [c for c in calls if isinstance(c.args[0].ops[0], (ast.LtE, ast.GtE, ast.Lt, ast.Gt)) and au.const_num(c.args[0].comparators[0]) == 0]
+                if directional:
+                    continue
+                costfree = [c for c in calls if isinstance(c.args[0].ops[0], ast.Eq) and au.const_num(c.args[0].comparators[0]) == 0]
+                if costfree:
+                    lossless = any(isinstance(c, ast.Compare) and len(c.ops) == 1 and isinstance(c.ops[0], ast.Eq) and any(
+                        au.path(y) == "self.efficiency" for y in au.walk_local(c)) and any(au.const_num(y) == 1 for y in [c.left] + c.comparators) for c in conj)
+                    free.append((d, lossless))
+            if not free:
+                continue
+            found_l = True
+            for d, lossless in free:
+                ctx.ob("C02.l", trl, "one variable for both directions under %s" % au.short(d, 60), lossless,
+                       "the one-variable formulation is entered for a transport that may flow in both directions whenever there are no costs (%s), whatever "
+                       "its efficiency: the factors are (-1, +efficiency) for either sign of the flow, so in the reverse direction node 1 receives |x| while "
+                       "node 2 gives up efficiency * |x| - with efficiency 0.5 buying 5 at n2 and selling 10 at n1 at the same price is worth 5 instead of 0"
+                       % au.short(d, 40), node=st, ok_detail="only without costs and without losses", key="both directions with one variable only without losses")
+        if not found_l:
+            ctx.ob("C02.l", trl, "one-variable branch", None, "the branch `if <direction fixed> or <no costs>: ... else: raise` was not found")
 
     # ================================================================= C02.j efficiency at the receiving node of either direction
     tr = p.cls("Transport").methods.get("setup_optim_problem")
